@@ -164,7 +164,7 @@ def path(f, st, depth=0):
             obj = f.s(st["obj"])
             name = c["name"]
             ot = obj.get("t", "") if obj else ""
-            if name == "get" and re.match(r"^(const )?std::(__)?(unique_ptr|shared_ptr)<", ot):
+            if name in ("get", "release") and re.match(r"^(const )?std::(__)?(unique_ptr|shared_ptr)<", ot):
                 return path(f, obj, depth + 1)
             if name in ("load",) and is_atomic_type(ot):
                 return path(f, obj, depth + 1)
